@@ -93,11 +93,19 @@ def explain_unsat_next(op_signal, intervals):
     return explain_next(op_signal, intervals)
 
 
+def explain_event(op_signal, intervals):
+    # rise and fall at time t depend on the operand at t and at t-1
+    op_intervals = []
+    for begin, end in intervals:
+        op_intervals.append([max(begin - 1, 0), end])
+    return interval_union(op_intervals)
+
+
 def explain_rise(op_signal, intervals):
-    return explain_unary(op_signal, intervals)
+    return explain_event(op_signal, intervals)
 
 def explain_fall(op_signal, intervals):
-    return explain_unary(op_signal, intervals)
+    return explain_event(op_signal, intervals)
 
 
 def explain_sat_prev(op_signal, intervals):
